@@ -1,6 +1,7 @@
 import Props.SchedTie
 import TaskModel.Sched.MonC01
 import TaskModel.Sched.EnterLemmas
+import TaskModel.Sched.OutLemmas
 /-!
 # C01 — Dependencies finish successfully before a task's commands start
 
@@ -62,18 +63,22 @@ theorem C01_cmd_start (P : Program) (F : Flags) (n : Nat) (tr : List Label) (c c
 
 /-- **C01 (shared dependencies).** An activation that found its `run: once` /
 `when_changed` key already registered (a dedup *waiter*) and has returned from waiting
-carries exactly the result of the registered execution of that key, and that execution has
+carries exactly the outcome of the registered execution of that key — the bare error it
+ended with, which the waiter wraps according to its own call like the executing activation
+does (`wrapFor`); in particular one succeeded iff the other did — and that execution has
 really finished (`execDone` accepted). -/
 theorem C01_shared (P : Program) (F : Flags) (n : Nat) (tr : List Label) (c : Config)
     (h : replay P F (init n) tr = some c) (w : Nat) (wx : Act) (k : Nat) (hw : c.act? w = some wx)
     (hk : wx.waitsFor = some k) (hp : wokenPhase wx.phase = true) :
     ∃ e ex, c.execs.lookup k = some e ∧ c.act? e = some ex ∧ ex.key = some k ∧
-      exFin ex.phase = true ∧ wx.res = ex.res := by
+      exFin ex.phase = true ∧ wx.out = ex.out ∧ wx.res = wrapFor wx.indirect ex.out ∧
+      ex.res = wrapFor ex.indirect ex.out := by
   have hD := DedupInv_reachable P F n tr c h
-  obtain ⟨e, ex, he, hex, hf, hr⟩ := (execResultOf_eq_some c k wx.res).mp (hD.waiter w wx k hw hk hp)
+  obtain ⟨e, ex, he, hex, hf, hr⟩ := (execResultOf_eq_some c k wx.out).mp (hD.waiter w wx k hw hk hp)
   obtain ⟨ex', hex', hkey⟩ := hD.execs.bound k e he
   rw [hex] at hex'; cases hex'
-  exact ⟨e, ex, he, hex, hkey, hf, hr.symm⟩
+  exact ⟨e, ex, he, hex, hkey, hf, hr.symm, by rw [hr]; exact S2.OutInv_sound P F n tr c h w wx hw,
+    S2.OutInv_sound P F n tr c h e ex hex⟩
 
 /-- **C01 (shared dependency of a proceeding task).** If a task has got past its join and
 one of its dependencies was served by a waiter on key `k`, then the single real execution
@@ -88,8 +93,12 @@ theorem C01_shared_dep (P : Program) (F : Flags) (n : Nat) (tr : List Label) (c 
   obtain ⟨id, kd, h1, h2, h3, h4, _⟩ := C01_deps_explicit P F n tr c h a x hx hp j hj
   refine ⟨id, kd, h1, h2, h3, h4, ?_⟩
   intro k hk
-  obtain ⟨e, ex, a1, a2, a3, a4, a5⟩ := C01_shared P F n tr c h id kd k h2 hk (by rw [h3]; rfl)
-  exact ⟨e, ex, a1, a2, a3, a4, by rw [← a5]; exact h4⟩
+  obtain ⟨e, ex, a1, a2, a3, a4, _, a5, a6⟩ := C01_shared P F n tr c h id kd k h2 hk (by rw [h3]; rfl)
+  refine ⟨e, ex, a1, a2, a3, a4, ?_⟩
+  have hsh := (S2.Shape_sound P F n tr c h e ex a2).out
+  have : ex.res.isOk = true := by
+    rw [a6, S2.wrapFor_isOk _ _ hsh, ← S2.wrapFor_isOk kd.indirect _ hsh, ← a5, h4]; rfl
+  exact S2.isOk_eq_ok _ this
 
 /-! ## the raw-trace monitors hold on every accepted trace -/
 
